@@ -25,7 +25,7 @@ type pRule struct {
 	Name string `json:"name"`
 	Sal  int64  `json:"sal"`
 	Desc string `json:"desc"`
-	Kind string `json:"kind"` // ret | plain | fail | panic
+	Kind string `json:"kind"` // ret | plain | fail | panic | cond | stop
 	Ver  int64  `json:"ver"`
 }
 
@@ -44,6 +44,8 @@ func pRuleText(r pRule) string {
 		sb.WriteString("  if 5 {\n    zz = 1\n  }\n")
 	case "ret":
 		fmt.Fprintf(&sb, "  return %d + Req.Id\n", r.Ver*1000000)
+	case "stop": // sets the stop tag the request passed (data key "stag": the same object the wrapper receives), then returns
+		fmt.Fprintf(&sb, "  stag.StopTag = true\n  return %d + Req.Id\n", r.Ver*1000000)
 	case "cond": // returns only for requests that ask for it: some requests get an EMPTY result map
 		fmt.Fprintf(&sb, "  if Req.Flag {\n    return %d + Req.Id\n  }\n", r.Ver*1000000)
 	}
@@ -536,6 +538,7 @@ func runPoolScenario(sc *pScenario) pObs {
 				data[""] = &ReqObj{Id: st.ID}
 			}
 			tag := &engine.Stag{}
+			data["stag"] = tag // rules of kind "stop" set it; only the *StopTag* wrappers look at it
 			stc := *st
 			go func() {
 				defer close(lv.done)
